@@ -24,6 +24,38 @@ ENV_ASSUMPTIONS = [
 ]
 
 
+def abstract_products(conds):
+    """over-approximation of a set of integer constraints: each product of >= 2 non-numeral factors becomes a fresh Int; for squares
+    x*x the axioms m >= 0 and (0 <= x <= y -> m_x <= m_y) are added."""
+    cache = {}; prods = {}
+    def walk(e):
+        k = e.get_id()
+        if k in cache: return cache[k]
+        if z3.is_app(e) and e.num_args() > 0:
+            args = [walk(a) for a in e.children()]
+            if z3.is_mul(e):
+                nums = [a for a in args if z3.is_int_value(a)]; rest = [a for a in args if not z3.is_int_value(a)]
+                if len(rest) >= 2:
+                    key = tuple(sorted(a.get_id() for a in rest))
+                    if key not in prods: prods[key] = (z3.Int('prod!%d' % len(prods)), rest)
+                    r = prods[key][0]
+                    for n in nums: r = n * r
+                else:
+                    r = args[0]
+                    for a in args[1:]: r = r * a
+            else:
+                r = e.decl()(*args)
+        else: r = e
+        cache[k] = r; return r
+    out = [walk(c) for c in conds if not isinstance(c, bool)] + [c for c in conds if isinstance(c, bool)]
+    squares = [(m, rest[0]) for m, rest in prods.values() if len(rest) == 2 and rest[0].get_id() == rest[1].get_id()]
+    for m, x in squares: out.append(m >= 0)
+    for m, x in squares:
+        for n, y in squares:
+            if m is not n: out.append(z3.Implies(z3.And(x >= 0, x <= y), m <= n))
+    return out
+
+
 class PathResult:
     __slots__ = ('kind', 'value', 'conds', 'world', 'log', 'msg', 'observed', 'tag', 'prefix', 'scenario', 'prog', 'extra', 'steps')
     def __init__(self, kind, value, conds, world, log, msg='', observed=None, prefix=None, scenario=None, prog=None):
@@ -176,15 +208,32 @@ class Check:
         self.solver_s += dt
         return r, (s.model() if r == z3.sat else None), dt
 
-    def oblige(self, oid, path, violation, desc='', lemmas=(), site=''):
-        """The property holds on `path` unless `violation` (z3 Bool / bool) is satisfiable under the path condition."""
+    def oblige(self, oid, path, violation, desc='', lemmas=(), site='', abstract=False):
+        """The property holds on `path` unless `violation` (z3 Bool / bool) is satisfiable under the path condition.
+        abstract=True: first try the query with every product of variables replaced by a fresh integer constrained only by sign and
+        by monotonicity between squares (an over-approximation: unsat there implies unsat of the exact query); fall back to the exact query."""
         conds = list(path.conds) + list(lemmas)
+        if abstract and not isinstance(violation, bool):
+            ab = abstract_products(conds + [violation])
+            r, model, dt = self.solve(ab)
+            if r == z3.unsat:
+                self.oblig.append(dict(id=oid, verdict='unsat', how='product abstraction', s=round(dt, 3), desc=desc, path=path.short(), tag=path.tag))
+                return 'unsat'
         if isinstance(violation, bool):
             if not violation:
                 rec = dict(id=oid, verdict='unsat', how='trivial', s=0.0, desc=desc, path=path.short())
                 self.oblig.append(rec); return 'unsat'
             violation = z3.BoolVal(True)
         r, model, dt = self.solve(conds + [violation])
+        if r == z3.unknown:
+            # portfolio: the verdict must not depend on the solver's random seed; retry with other seeds before giving up
+            seed0 = self.seed
+            for k in (1, 2, 3):
+                self.seed = seed0 + 7919 * k
+                try: r, model, dt2 = self.solve(conds + [violation])
+                finally: self.seed = seed0
+                dt += dt2; self.retries = getattr(self, 'retries', 0) + 1
+                if r != z3.unknown: break
         rec = dict(id=oid, verdict=str(r), s=round(dt, 3), desc=desc, path=path.short(), tag=path.tag)
         self.oblig.append(rec)
         if r == z3.unsat: return 'unsat'
